@@ -48,7 +48,8 @@ impl AsyncRead for ScriptReader {
                 buf.put_slice(&this.data[p..p + n]);
                 this.pos += n;
                 // a chunk only partially taken stays at the head of the script
-                if n < k { let rest = k - n; self.step -= 1; let s = self.step; self.script[s] = Ans::Bytes(rest); }
+                // (only scripted chunks: past the end of the script every poll offers all that is left anyway)
+                if n < k && self.step <= self.script.len() { let rest = k - n; self.step -= 1; let s = self.step; self.script[s] = Ans::Bytes(rest); }
                 Poll::Ready(Ok(()))
             }
         }
